@@ -16,7 +16,7 @@ Line protocol of the C17 model (R = Rat).
   dc2m  <BC> <n> <P>            -> `asm=<mat> doc=<mat>`  C07's `conv2` matrix / columns of `docConv2` on unit images
   poisson <N> <dx> <kappa> <rhs> <obs> -> `same=<0|1> u=<vec>` (solution of the documented system restricted to obs) | `singular`
   heat  <N> <endpoint> <maxTime> <u0> <obs> -> `iters=<k> same=<0|1> u=<vec>`
-  heatk <N> <dx> <dt> <k> <u0>  -> `u=<vec>` (given step count/size)
+  heatk <N> <dx> <dt> <k> <u0> <obs> -> `same=<0|1> u=<vec>` (given step count/size)
   abel  <n> <endpoint>          -> `asm=<mat> doc=<mat>` squares of the entries
   wang  <x0> <x1>               -> `f=<q> j=<q>,<q> d=<q>,<q>` (forward, coded Jacobian, symbolic derivative)
   noise <type> <sigma> <y> <xi> -> `path=<vec> doc=<vec>` | `err:zero-cov` | `err:type`
@@ -133,14 +133,15 @@ def step : List String → String
       let ud := run (heatDocStep N dx dt)
       s!"iters={k} same={fmtBool (ua == ud)} u={fmtVec (pick ua obs)}"
     | _, _, _, _, _ => "bad-op"
-  | ["heatk", n, dx, dt, k, u0] =>
-    match n.toNat?, parseRat dx, parseRat dt, k.toNat?, parseVec u0 with
-    | some N, some dx, some dt, some k, some u0 =>
+  | ["heatk", n, dx, dt, k, u0, obs] =>
+    match n.toNat?, parseRat dx, parseRat dt, k.toNat?, parseVec u0, parseNatList obs with
+    | some N, some dx, some dt, some k, some u0, some obs =>
       if u0.length ≠ N ∨ dx = 0 then "err:shape" else
       let M := (heatStepMat N dx dt).force
       let ua := (List.range k).foldl (fun u _ => tab N (fun i => M.apply (vecFn u) i + dt * 0)) u0
-      s!"u={fmtVec ua}"
-    | _, _, _, _, _ => "bad-op"
+      let ud := (List.range k).foldl (fun u _ => tab N (heatDocStep N dx dt (vecFn u))) u0
+      s!"same={fmtBool (ua == ud)} u={fmtVec (pick ua obs)}"
+    | _, _, _, _, _, _ => "bad-op"
   | ["abel", n, ep] =>
     match n.toNat?, parseRat ep with
     | some n, some ep => if n = 0 ∨ ep = 0 then "err" else s!"asm={fmtL (abelSq n ep)} doc={fmtL (abelDocSq n ep)}"
